@@ -23,10 +23,12 @@
    whole sweeps (flattening of the multi-indices, QR/RQ gauge changes keep the iterate).
      - EXACTNESS AT MAXIMAL RANKS (C07_full_rank_exact): when the frame is unitary on the whole space (P P^H = I, the situation
        at maximal TT ranks), a solution of the micro system P^H A P y = P^H b gives A (P y) = b.
+     - FIXED POINT (C07_fixed_point): if the current iterate x = P y0 solves A x = b, its coefficients y0 solve the micro
+       system P^H A P y = P^H b at every position (any frame), so a non-singular micro solve returns the core unchanged.
    Known findings F16/F16b: MALS with an active max_rank is not monotone. *)
 From Coq Require Import ZArith List Lia Arith.
 Import ListNotations.
-Require Import Ring Sums Matrix Core Chain TensordotProof Env EnvProof Galerkin FrameProof FrameProof2 RhsFrameProof FullRankProof.
+Require Import Ring Sums Matrix Core Chain TensordotProof Env EnvProof Galerkin FrameProof FrameProof2 RhsFrameProof FullRankProof FixedPoint.
 Open Scope cr_scope.
 
 Theorem C07_galerkin_descent (R : cring) (N : nat) (A : nat -> nat -> R)
@@ -122,3 +124,10 @@ Proof.
   - intros i j Hi Hj. destruct i as [|[|i]]; destruct j as [|[|j]]; try lia; vm_compute; reflexivity.
   - vm_compute. reflexivity.
 Qed.
+
+(* fixed point: an iterate x = P y0 that solves A x = b satisfies every micro system (P^H A P) y = P^H b it meets (any frame P) *)
+Theorem C07_fixed_point (R : cring) (n r : nat) (P A : M R) (y0 b : nat -> R) :
+  (forall i, (i < n)%nat -> sum n (fun j => A i j * lift r P y0 j) = b i) ->
+  forall k, sum r (fun l => microM n P A k l * y0 l) = sum n (fun i => cconj R (P i k) * b i).
+Proof. exact (fixed_point_solve n r P A y0 b). Qed.
+Print Assumptions C07_fixed_point.
